@@ -358,6 +358,7 @@ func m2(idx int64, r *rand.Rand) {
 	target := []string{"limiter+simple", "limiter+precise", "precise-direct"}[r.IntN(3)]
 	var acquire func() (func(int), bool)
 	stratArgM2 := L
+	thresholdM2 := int64(0)
 	switch target {
 	case "precise-direct":
 		st := strategy.NewPreciseStrategy(L)
@@ -376,7 +377,11 @@ func m2(idx int64, r *rand.Rand) {
 		if target == "limiter+precise" {
 			st = strategy.NewPreciseStrategy(arg)
 		}
-		dl, err := limiter.NewDefaultLimiter(limit.NewFixedLimit("c01", L, nil), 1, 1, 0, 10, st, limit.NoopLimitLogger{}, core.EmptyMetricRegistryInstance)
+		// minimum-RTT threshold: none, the documented default (100us) or far above every hold time - completions below it are
+		// not sampled but give their unit back like any other
+		thr := []int64{0, 1e5, 1e9}[r.IntN(3)]
+		thresholdM2 = thr
+		dl, err := limiter.NewDefaultLimiter(limit.NewFixedLimit("c01", L, nil), 1, 1, thr, 10, st, limit.NoopLimitLogger{}, core.EmptyMetricRegistryInstance)
 		if err != nil {
 			panic(err)
 		}
@@ -489,7 +494,7 @@ func m2(idx int64, r *rand.Rand) {
 	rt.Count("m2_operations", int64(grants+refusals))
 	rt.Count("m2_refusals_checked", int64(refusals))
 	rt.Max("max:m2_simultaneous_holders_lower_bound_minus_limit", int64(maxLB-L))
-	cfg := rt.J{"target": target, "limit": L, "strategy_constructed_with": stratArgM2, "goroutines": nG, "hold": hold, "yield_in_simple_strategy": yield, "grants": grants, "refusals": refusals}
+	cfg := rt.J{"target": target, "limit": L, "strategy_constructed_with": stratArgM2, "min_rtt_threshold_ns": thresholdM2, "goroutines": nG, "hold": hold, "yield_in_simple_strategy": yield, "grants": grants, "refusals": refusals}
 	if maxLB > L {
 		rt.Violation("C01/"+target+"/more-tokens-held-than-the-limit", idx, rt.J{"config": cfg, "holders_lower_bound": maxLB})
 		return
